@@ -66,10 +66,12 @@ pub mod syntree {
     pub struct Checkpoint { _p: u8 }
     impl Checkpoint {
         pub uninterp spec fn depth(&self) -> nat;
+        /// how many leaves the tree had when the checkpoint was taken (a checkpoint marks a position between siblings)
+        pub uninterp spec fn pos(&self) -> nat;
     }
     impl Clone for Checkpoint {
         #[verifier::external_body]
-        fn clone(&self) -> (r: Self) ensures r.depth() == self.depth() { unimplemented!() }
+        fn clone(&self) -> (r: Self) ensures r.depth() == self.depth(), r.pos() == self.pos() { unimplemented!() }
     }
 
     #[verifier::external_body]
@@ -110,7 +112,7 @@ pub mod syntree {
 
         #[verifier::external_body]
         pub fn checkpoint(&mut self) -> (r: Result<Checkpoint, Error>)
-            ensures r matches Ok(c) && c.depth() == old(self).depth(), final(self).leaves() == old(self).leaves(), final(self).depth() == old(self).depth()
+            ensures r matches Ok(c) && c.depth() == old(self).depth() && c.pos() == old(self).leaves().len(), final(self).leaves() == old(self).leaves(), final(self).depth() == old(self).depth()
         { unimplemented!() }
 
         #[verifier::external_body]
